@@ -19,6 +19,7 @@ import (
 	"strings"
 	"time"
 
+	"github.com/cgi-fr/jsonline/pkg/cast"
 	"github.com/cgi-fr/jsonline/pkg/jsonline"
 )
 
@@ -1020,7 +1021,7 @@ func valuesOfType(r *rng, t string) []interface{} {
 			add(uint8(x))
 		}
 	case "float64":
-		for _, x := range []float64{0, math.Copysign(0, -1), 1, -1.5, 0.1, 1e21, 1e-7, math.MaxFloat64, math.SmallestNonzeroFloat64, 1 << 53, 1<<53 + 2, math.Float64frombits(r.next() &^ (0x7ff << 52) | uint64(r.intn(2046)+1)<<52)} {
+		for _, x := range []float64{0, math.Copysign(0, -1), 1, -1.5, 0.1, 1e21, 1e-7, math.MaxFloat64, math.SmallestNonzeroFloat64, 1 << 53, 1<<53 + 2, math.Float64frombits(r.next()&^(0x7ff<<52) | uint64(r.intn(2046)+1)<<52)} {
 			add(x)
 		}
 	case "float32":
@@ -1090,6 +1091,72 @@ func inLosslessDomain(f jsonline.Format, t string, v interface{}) bool {
 		return x.Year() >= 0 && x.Year() <= 9999
 	}
 	return true
+}
+
+// C10 at row level, through every way of handing a Value to a column: after a SUCCESSFUL import the raw value of the
+// column is nil or of exactly the raw type the column then declares (a plain Value replaces format and raw type
+// together; data is converted to the column's raw type)
+func (c *templCtx) valueImportOracle() {
+	var donors []jsonline.Value
+	for _, f := range allFormats {
+		for _, tn := range []string{"", "int", "int16", "uint8", "float64", "string", "[]byte", "bool", "json.Number", "time.Time"} {
+			for _, x := range []interface{}{"42", int16(7), 2.5, true, []byte("AQ=="), "2021-09-24T10:11:12Z", int64(1632478272), nil} {
+				if _, err := cast.To(typeSample[tn], x); err != nil {
+					continue // (NewValue keeps the uncast value when the cast fails: such a donor is itself ill-typed)
+				}
+				donors = append(donors, jsonline.NewValue(x, f, typeSample[tn]))
+			}
+		}
+	}
+	for _, f := range allFormats {
+		for _, tn := range append([]string{""}, typeNames...) {
+			tpl := jsonline.NewTemplate().With("c", f, typeSample[tn]).WithNumeric("n")
+			for di, d := range donors {
+				for how := 0; how < 4; how++ {
+					if (di+how)%3 != 0 {
+						continue
+					}
+					row := tpl.CreateRowEmpty()
+					var err error
+					var desc string
+					p, msg := guard(func() {
+						switch how {
+						case 0:
+							desc = "ImportAtKey(\"c\", Value)"
+							err = row.ImportAtKey("c", d)
+						case 1:
+							desc = "ImportAtIndex(0, Value)"
+							err = row.ImportAtIndex(0, d)
+						case 2:
+							desc = "Import(map{c: Value})"
+							err = row.Import(map[string]interface{}{"c": d})
+						default:
+							desc = "GetValue(\"c\").Import(Value)"
+							cell, _ := row.GetValue("c")
+							err = cell.Import(d)
+						}
+					})
+					ctx := map[string]interface{}{"stream": "template", "column": fmt.Sprintf("%s(%s)", strings.ToLower(strings.TrimPrefix(gFormat(f), "F")), tn),
+						"call": desc, "value": fmt.Sprintf("NewValue(%s, %s, %T)", describe(d.Raw()), gFormat(d.GetFormat()), d.GetRawType())}
+					if p {
+						c.violate("C17", "panic: "+msg, ctx)
+						continue
+					}
+					c.rep.OracleChecks["C10"]++
+					if err != nil {
+						continue
+					}
+					cell, ok := row.GetValue("c")
+					if !ok || cell == nil {
+						continue
+					}
+					if raw, typ := cell.Raw(), cell.GetRawType(); raw != nil && typ != nil && reflect.TypeOf(raw) != reflect.TypeOf(typ) {
+						c.violate("C10", fmt.Sprintf("after a successful %s the column declares raw type %T and holds a %T", desc, typ, raw), ctx)
+					}
+				}
+			}
+		}
+	}
 }
 
 func (c *templCtx) typedRoundTrips() {
@@ -1261,6 +1328,9 @@ func templateStream(seed uint64, tier string, outDir string, props map[string]bo
 	flush()
 	if props["C13"] || props["C17"] {
 		c.typedRoundTrips()
+	}
+	if props["C10"] || props["C17"] {
+		c.valueImportOracle()
 	}
 	if props["C05"] || props["C04"] || props["C03"] || props["C01"] {
 		c.fixedPointSweep()
